@@ -115,7 +115,7 @@ func Zs(v int64) string { return z(v) }
 func SamplesCoq(ss []S) string {
 	parts := make([]string, len(ss))
 	for i, s := range ss {
-		parts[i] = "(" + z(s.T) + "," + z(s.V) + ")"
+		parts[i] = "(sp " + z(s.T) + " " + z(s.V) + ")"
 	}
 	return "[" + strings.Join(parts, ";") + "]"
 }
@@ -124,9 +124,9 @@ func RawCoq(ss []RawS) string {
 	parts := make([]string, len(ss))
 	for i, s := range ss {
 		if s.K == "" {
-			parts[i] = "(" + z(s.T) + ",Some " + z(s.V) + ")"
+			parts[i] = "(rs " + z(s.T) + " " + z(s.V) + ")"
 		} else {
-			parts[i] = "(" + z(s.T) + ",None)"
+			parts[i] = "(rn " + z(s.T) + ")"
 		}
 	}
 	return "[" + strings.Join(parts, ";") + "]"
